@@ -439,19 +439,12 @@ impl<'a> Socket<'a> {
             // are bound to.
             (
                 &Endpoint::Udp(endpoint),
-                &Icmpv4Repr::DstUnreachable { data, header, .. }
-                | &Icmpv4Repr::TimeExceeded { data, header, .. },
+                &Icmpv4Repr::DstUnreachable { data, .. }
+                | &Icmpv4Repr::TimeExceeded { data, .. },
             ) if endpoint.addr.is_none() || endpoint.addr == Some(ip_repr.dst_addr.into()) => {
-                let packet = UdpPacket::new_unchecked(data);
-                match UdpRepr::parse(
-                    &packet,
-                    &header.src_addr.into(),
-                    &header.dst_addr.into(),
-                    &cx.checksum_caps(),
-                ) {
-                    Ok(repr) => endpoint.port == repr.src_port,
-                    Err(_) => false,
-                }
+                // The offending datagram is normally cut after its first eight octets, so it
+                // cannot be parsed (or checksummed) as a whole; the ports are in those octets.
+                data.len() >= 8 && endpoint.port == UdpPacket::new_unchecked(data).src_port()
             }
             // If we are bound to ICMP errors associated to a TCP port, only
             // accept Destination Unreachable or Time Exceeded messages with
@@ -459,19 +452,12 @@ impl<'a> Socket<'a> {
             // are bound to.
             (
                 &Endpoint::Tcp(endpoint),
-                &Icmpv4Repr::DstUnreachable { data, header, .. }
-                | &Icmpv4Repr::TimeExceeded { data, header, .. },
+                &Icmpv4Repr::DstUnreachable { data, .. }
+                | &Icmpv4Repr::TimeExceeded { data, .. },
             ) if endpoint.addr.is_none() || endpoint.addr == Some(ip_repr.dst_addr.into()) => {
-                let packet = TcpPacket::new_unchecked(data);
-                match TcpRepr::parse(
-                    &packet,
-                    &header.src_addr.into(),
-                    &header.dst_addr.into(),
-                    &cx.checksum_caps(),
-                ) {
-                    Ok(repr) => endpoint.port == repr.src_port,
-                    Err(_) => false,
-                }
+                // The offending segment is normally cut after its first eight octets, so it
+                // cannot be parsed (or checksummed) as a whole; the ports are in those octets.
+                data.len() >= 8 && endpoint.port == TcpPacket::new_unchecked(data).src_port()
             }
             // If we are bound to a specific ICMP identifier value, only accept an
             // Echo Request/Reply with the identifier field matching the endpoint
@@ -501,19 +487,12 @@ impl<'a> Socket<'a> {
             // are bound to.
             (
                 &Endpoint::Udp(endpoint),
-                &Icmpv6Repr::DstUnreachable { data, header, .. }
-                | &Icmpv6Repr::TimeExceeded { data, header, .. },
+                &Icmpv6Repr::DstUnreachable { data, .. }
+                | &Icmpv6Repr::TimeExceeded { data, .. },
             ) if endpoint.addr.is_none() || endpoint.addr == Some(ip_repr.dst_addr.into()) => {
-                let packet = UdpPacket::new_unchecked(data);
-                match UdpRepr::parse(
-                    &packet,
-                    &header.src_addr.into(),
-                    &header.dst_addr.into(),
-                    &cx.checksum_caps(),
-                ) {
-                    Ok(repr) => endpoint.port == repr.src_port,
-                    Err(_) => false,
-                }
+                // The offending datagram is normally cut after its first eight octets, so it
+                // cannot be parsed (or checksummed) as a whole; the ports are in those octets.
+                data.len() >= 8 && endpoint.port == UdpPacket::new_unchecked(data).src_port()
             }
             // If we are bound to ICMP errors associated to a TCP port, only
             // accept Destination Unreachable or Time Exceeded messages with
@@ -521,19 +500,12 @@ impl<'a> Socket<'a> {
             // are bound to.
             (
                 &Endpoint::Tcp(endpoint),
-                &Icmpv6Repr::DstUnreachable { data, header, .. }
-                | &Icmpv6Repr::TimeExceeded { data, header, .. },
+                &Icmpv6Repr::DstUnreachable { data, .. }
+                | &Icmpv6Repr::TimeExceeded { data, .. },
             ) if endpoint.addr.is_none() || endpoint.addr == Some(ip_repr.dst_addr.into()) => {
-                let packet = TcpPacket::new_unchecked(data);
-                match TcpRepr::parse(
-                    &packet,
-                    &header.src_addr.into(),
-                    &header.dst_addr.into(),
-                    &cx.checksum_caps(),
-                ) {
-                    Ok(repr) => endpoint.port == repr.src_port,
-                    Err(_) => false,
-                }
+                // The offending segment is normally cut after its first eight octets, so it
+                // cannot be parsed (or checksummed) as a whole; the ports are in those octets.
+                data.len() >= 8 && endpoint.port == TcpPacket::new_unchecked(data).src_port()
             }
             // If we are bound to a specific ICMP identifier value, only accept an
             // Echo Request/Reply with the identifier field matching the endpoint
